@@ -5,10 +5,21 @@ import (
 	"strings"
 )
 
-var (
-	sanitizeSetPassword = regexp.MustCompile(`(?i)password\s+for[^=]*=\s+(["']?[^\s"]+["']?)`)
+// A password is a single-quoted string (the only form the parser accepts; backslash
+// escapes, no line break), a double-quoted one (invalid, but common), or, failing
+// both, whatever follows up to the next white space.
+const sanitizePasswordPattern = `('(?:[^'\\\n]|\\.)*'|"(?:[^"\\\n]|\\.)*"|[^\s;'"][^\s;]*|['"][^\s]*)`
 
-	sanitizeCreatePassword = regexp.MustCompile(`(?i)with\s+password\s+(["']?[^\s"]+["']?)`)
+// What may stand between two tokens: white space and comments.
+const sanitizeGapPattern = `(?:\s|/\*[^*]*\*+(?:[^/*][^*]*\*+)*/|--[^\n]*(?:\n|$))*`
+
+var (
+	// SET PASSWORD FOR <user> = <password>: the user name may be quoted and may then
+	// contain '='; white space around '=' is optional.
+	sanitizeSetPassword = regexp.MustCompile(`(?i)password\s+for\s*(?:"(?:[^"\\\n]|\\.)*"|[^="]*)` + sanitizeGapPattern + `=` + sanitizeGapPattern + sanitizePasswordPattern)
+
+	// ... WITH PASSWORD <password>: white space before the password is optional.
+	sanitizeCreatePassword = regexp.MustCompile(`(?i)with\s+password` + sanitizeGapPattern + sanitizePasswordPattern)
 )
 
 // Sanitize attempts to sanitize passwords out of a raw query.
